@@ -855,6 +855,24 @@ func (c *EvalCtx) call(x *Expr) (*Val, error) {
 			return &Val{T: sel(c.e.heapGet(c.st, c.heap(), c.e.keyMapP(ks, vs)), a.T), S: arr(ks, sBool)}, nil
 		}
 		return &Val{T: sel(c.e.heapGet(c.st, c.heap(), c.e.keyMapV(ks, vs)), a.T), S: arr(ks, vs), Typ: types.NewArray(mt.Elem(), 0)}, nil
+	case "unboxStr", "unboxBytes", "unboxPtrBytes", "unboxPtrStr":
+		a, err := argv(0)
+		if err != nil {
+			return nil, err
+		}
+		if a.S != sIface {
+			return nil, fmt.Errorf("%s of non-interface %s", x.S, a)
+		}
+		switch x.S {
+		case "unboxStr":
+			return &Val{T: "(boxval_Str (i_ref " + a.T + "))", S: sStr, Typ: types.Typ[types.String]}, nil
+		case "unboxBytes":
+			return &Val{T: "(boxval_Bytes (i_ref " + a.T + "))", S: sBytes, Typ: types.NewSlice(types.Typ[types.Uint8])}, nil
+		case "unboxPtrBytes":
+			return &Val{T: "(i_ref " + a.T + ")", S: sInt, Typ: types.NewPointer(types.NewSlice(types.Typ[types.Uint8]))}, nil
+		default:
+			return &Val{T: "(i_ref " + a.T + ")", S: sInt, Typ: types.NewPointer(types.Typ[types.String])}, nil
+		}
 	case "typeid":
 		// typeid(x): dynamic type tag of an interface value
 		a, err := argv(0)
